@@ -212,4 +212,25 @@ PROPS = {
         "not_decided": ["the equality 'reported value = solved value at on-grid states' is the composition of C02.decisions (value = max of the period objective over the feasible grid choices, with V_{t+1} = element t+1 of the list) and C01.period-step (V_t[s] = the same max): both are proved against the same per-period objective function; the composition itself is argued, not a separate VC"],
         "assumptions": COMMON_ASSUMPTIONS,
     },
+    "C08": {
+        "contracts": ["C02.decisions", "C03.law-of-motion", "C13.panel", "C08.permutation-subset-duplication", "lcm.dispatchers.vmap_1d", "lcm.dispatchers.spacemap", "lcm.argmax.argmax", "lcm.argmax.segment_argmax"],
+        "families": {"quick": "Skel-quick; any number of agents, any batch of initial states", "thorough": "Skel-thorough + reversed key order of initial_states"},
+        "not_decided": ["the permutation / subset / duplication statements themselves are checked by a bounded stand-in (sampled batches of <= 3 agents on the real code); the deductive part is that every proved clause about row (t, i) of the panel mentions agent i's own row only (decisions, value, next states), for every batch, and that ties are broken by position within the agent's own rows (C18)"],
+        "assumptions": COMMON_ASSUMPTIONS + ["every agent has at least one filter-passing choice combination"],
+        "level_text": "Agent-local postconditions (C02/C03/C13 clauses quantify over one agent's row and mention no other agent) are proved for all batch sizes and contents on skeletons without filter-restricted choices; the relational statements (permutation, subset, duplication, key order) are exercised by a bounded stand-in that is not counted as proved.",
+    },
+    "C09": {
+        "contracts": ["C09.frame", "lcm.functools.get_union_of_arguments", "lcm.input_processing.create_params_template.create_params_template", "lcm.input_processing.process_model.process_model"],
+        "hash_seeds": {"contracts": ["lcm.model_functions.get_utility_and_feasibility_function", "C01.period-step"], "seeds": [1, 2], "seeds_thorough": [1, 2, 3, 4, 5]},
+        "families": {"quick": "Skel-quick: frame conditions over get_lcm_function and repeated, interleaved solve calls with two params objects; the utility-and-feasibility and period-step contracts re-proved in processes with PYTHONHASHSEED 1 and 2 (set iteration orders)", "thorough": "Skel-thorough; PYTHONHASHSEED 1..5"},
+        "not_decided": ["JIT/XLA cache behaviour and bit-equality across processes (outside the model)", "stores performed inside natively executed libraries (dags, pandas) are not observed"],
+        "assumptions": COMMON_ASSUMPTIONS + ["library contracts are pure functions of their arguments"],
+    },
+    "C10": {
+        "contracts": ["C01.period-step", "lcm.model_functions.get_utility_and_feasibility_function", "lcm.input_processing.process_model.process_model", "lcm.discrete_problem._determine_dense_discrete_choice_axes", "lcm.dispatchers.spacemap", "lcm.dispatchers._base_productmap", "lcm.functools.convert_kwargs_to_args", "lcm.state_space.create_state_choice_space"],
+        "families": {"quick": "Skel-quick incl. one reversed function order and the pair retirement-filter / retirement-constraint (the same discrete restriction written both ways)", "thorough": "Skel-thorough: every skeleton also with reversed declaration orders of states, choices and functions"},
+        "not_decided": ["renaming of variables (names are opaque strings to every function under contract; not exercised separately)", "an always-true filter or constraint: corollary of the Bellman specification (the feasible set is defined by the conjunction)"],
+        "assumptions": COMMON_ASSUMPTIONS,
+        "level_text": "Every rewriting is decided through the specification: the period value is proved equal to the Bellman maximum over the set of grid combinations passing all filters and constraints, with variables bound by name and axes in the documented layout, for each skeleton AND its rewritten variants; equal specifications then give equal values.",
+    },
 }
